@@ -136,16 +136,29 @@ let handle (line : string) : string =
           | Some None -> "lost"
           | Some (Some (((p, pay), cb), ce)) -> hex_of_z pay ^ ":" ^ hex_of_z p ^ ":" ^ hex_of_z cb ^ ":" ^ hex_of_z ce) rs in
       String.concat " " ("guard-ok" :: outs)
-  | "TM" :: _kind :: _bb :: _mv :: _qb :: recs ->
-      (* an array of (word, payload, next pointer) records is an array: record i reads back its payload, its index and the
-         child range [sum of children before i, that + children i) -- whatever the pointer compression (specification level;
-         the compression itself is modelled and proved in coq/C03/BhikshaModel.v) *)
-      let ix s = int_of_string ("0x" ^ s) in
-      let _, _, out = List.fold_left (fun (i, start, acc) r ->
-          match String.split_on_char ':' r with
-          | [_w; p; c] -> (i + 1, start + ix c, Printf.sprintf "%x:%x:%x:%x" (ix p) i start (start + ix c) :: acc)
-          | _ -> (i + 1, start, "?" :: acc)) (0, 0, []) recs in
-      String.concat " " ("guard-ok" :: List.rev out)
+  | "TM" :: "A" :: bb :: mv :: qb :: recs ->
+      (* BitPackedMiddle<ArrayBhiksha>: the extracted model (coq/C20/MiddleModel.v midA_*: generated bit-packing routines + the
+         offset table of coq/C03/BhikshaModel.v, inline bits = InlineBits(entries + 1, max_next, config)) *)
+      let max_vocab = z_of_hex mv and quant = z_of_hex qb and cfg = z_of_hex bb in
+      let parsed = List.map (fun r -> match String.split_on_char ':' r with
+          | [w; p; c] -> (z_of_hex w, z_of_hex p, z_of_hex c) | _ -> failwith "rec") recs in
+      let total = List.fold_left (fun acc (_, _, c) -> Z.add acc c) Z0 parsed in
+      let _, rs = List.fold_left (fun (start, acc) (w, p, c) -> (Z.add start c, ((w, p), start) :: acc)) (Z0, []) parsed in
+      let rs = List.rev rs in
+      let n = z_of_int (List.length rs) in
+      let n1 = z_of_int (List.length rs + 1) in
+      let m = { m_base = Z0; m_wb = bits_needed max_vocab; m_qb = quant; m_nb = inline_bits n1 total cfg; m_max_vocab = max_vocab } in
+      let st = midA_finish m (midA_inserts m (Z0, []) Z0 rs) n total in
+      let fuel = nat_of_int (List.length rs + 3) in
+      let count = nat_of_int (List.length rs + 1) in
+      let outs = List.map (fun ((w, _), _) ->
+          match midA_find m fuel count st w Z0 n with
+          | None -> "OUT-OF-FUEL"
+          | Some None -> "lost"
+          | Some (Some (((p, pay), cb), ce)) -> hex_of_z pay ^ ":" ^ hex_of_z p ^ ":" ^ hex_of_z cb ^ ":" ^ hex_of_z ce) rs in
+      (* ArrayBhiksha::FinishedLoading throws unless exactly ArrayCount offset slots were written *)
+      let slots_ok = z_of_int (List.length (snd st)) = array_count n1 total cfg in
+      String.concat " " ((if slots_ok then "guard-ok" else "OFFSET-SLOTS-MISMATCH") :: outs)
   | _ -> "?"
 
 let () = each_line handle
